@@ -47,6 +47,7 @@ structure SyncCase where
   ffMode : String
   refspecForce : Bool
   forcedDsts : List String
+  mainOnly : Bool
   lb : RepoObs
   rb : RepoObs
   la : RepoObs
@@ -59,6 +60,7 @@ def syncCaseOf (input impl : Json) : Except String SyncCase := do
            force := (fldD input "force" (Json.bool false)).getBool?.toOption.getD false,
            depth := ← natFld input "depth", ffMode := (fldD input "ffMode" (Json.str "")).getStr?.toOption.getD "",
            refspecForce := (fldD input "refspecForce" (Json.bool false)).getBool?.toOption.getD false,
+           mainOnly := (fldD input "mainOnly" (Json.bool false)).getBool?.toOption.getD false,
            forcedDsts := (match fldD input "forcedDsts" (Json.arr #[]) with
              | .arr a => a.toList.filterMap (fun x => x.getStr?.toOption)
              | _ => []),
@@ -93,7 +95,8 @@ def handleC09 (_op : String) (input impl : Json) : Except String Json := do
     -- an immediately repeated fetch or push transfers nothing and changes nothing
     (match (v.getObjVal? "local2").toOption, (v.getObjVal? "remote2").toOption with
      | some l2j, some r2j =>
-       if l2j == Json.null || r2j == Json.null then [] else
+       -- the clause is about a repeat of a SUCCESSFUL fetch / push
+       if l2j == Json.null || r2j == Json.null || c.failed then [] else
        match repoObsOf l2j, repoObsOf r2j with
        | .ok l2, .ok r2 =>
          (if sameObs l2 c.la && sameObs r2 c.ra then [] else ["repeated-run-changes-nothing"]) ++
@@ -105,7 +108,7 @@ def handleC09 (_op : String) (input impl : Json) : Except String Json := do
   let agree :=
     if c.action == "fetch" then
       -- wanted: every remote head (and tags when they are fetched or point at fetched/existing commits)
-      let heads := (c.rb.refs.filter (fun p => p.1.startsWith "heads/")).map (·.2)
+      let heads := (c.rb.refs.filter (fun p => p.1.startsWith "heads/" && (!c.mainOnly || p.1 == "heads/main"))).map (·.2)
       let s := fun (l : List Nat) => l.mergeSort (fun x y => decide (x ≤ y))
       -- tags may add commits only if their target is otherwise present; compare on heads' closure as a lower bound and allow tag targets
       let lower := expectCommits heads
@@ -151,7 +154,7 @@ def handleC10 (_op : String) (input impl : Json) : Except String Json := do
   -- model: the decision for each ref the command considers
   let modelLocal : List (String × RefDecision) :=
     if c.action == "fetch" then
-      (c.rb.refs.filter (fun p => p.1.startsWith "heads/")).map (fun p =>
+      (c.rb.refs.filter (fun p => p.1.startsWith "heads/" && (!c.mainOnly || p.1 == "heads/main"))).map (fun p =>
         let dst := "remotes/origin/" ++ (p.1.drop 6).toString
         (dst, fetchDecision (c.lb.ref? dst) p.2 false (c.force || c.refspecForce || c.forcedDsts.contains dst) isAnc))
     else []
